@@ -245,7 +245,10 @@ class HTTPStream:
     async def _send_closed(self) -> None:
         await self.send(EndBody(stream_id=self.stream_id))
         self.state = ASGIHTTPState.CLOSED
-        await self.config.log.access(self.scope, self.response, time() - self.start_time)
+        if not self.closed:
+            # A stream that has already been closed (e.g. the client
+            # has half closed) has already been logged
+            await self.config.log.access(self.scope, self.response, time() - self.start_time)
         await self.send(StreamClosed(stream_id=self.stream_id))
 
     async def _send_error_response(self, status_code: int) -> None:
